@@ -5,7 +5,8 @@
    explanatories/_transforms.py, explanatories/main.py and plans/transforms.py.
    [m] is an arbitrary classification of real values as "missing" (it only decides the when_data fallback). *)
 From Coq Require Import ZArith List Reals.
-From Verif Require Import lib.Arith gen.TransformsGen model.Sequential proofs.SequentialProofs.
+From Verif Require Import lib.Arith gen.TransformsGen gen.SeqSlatableGen model.Sequential model.SeqSlate
+                          proofs.SequentialProofs proofs.SeqSlateProofs.
 Import ListNotations.
 Notation RA := RArithM.
 
@@ -127,3 +128,105 @@ Example C17_hypotheses_satisfiable : forall m,
   (forall (d : data (RA m)) t e, In t ex_cols -> In e (ex_eqs m) -> dom_ok m ex_plan (t, e) d) /\
   (exists t e pp, In t ex_cols /\ In e (ex_eqs m) /\ get_transform (RA m) ex_plan e t = Some pp).
 Proof. exact hypotheses_satisfiable. Qed.
+
+(* 6. WHICH numbers the equations are evaluated with.  The initial working array is built from the input databox by
+      slatable_for_simulate's fallbacks / overwrites (routing tables regenerated from the source, gen/SeqSlatableGen.v).
+      parameters_from_data=False (the default): a parameter row carries the value assigned in the model in every
+      column, whatever the input databox holds under that name and whatever shocks_from_data is ... *)
+Theorem C17_slate_parameter_from_model : forall m (sm : seqmodel (RA m)) r (v : R) sfd (raw : data (RA m)) c,
+  sm_ok m sm -> alookup (RA m) (sm_params sm) r = Some v ->
+  initial_slate (RA m) sm false sfd raw r c = v.
+Proof. exact slate_parameter_from_model. Qed.
+Print Assumptions C17_slate_parameter_from_model.
+
+(* ... parameters_from_data=True: the databox value where it is not missing, the model's value otherwise *)
+Theorem C17_slate_parameter_from_data : forall m (sm : seqmodel (RA m)) r (v : R) sfd (raw : data (RA m)) c,
+  sm_ok m sm -> alookup (RA m) (sm_params sm) r = Some v ->
+  initial_slate (RA m) sm true sfd raw r c = if m (raw r c) then v else raw r c.
+Proof. exact slate_parameter_from_data. Qed.
+Print Assumptions C17_slate_parameter_from_data.
+
+(* residual rows: shocks_from_data=True (the default) the input residual where present, zero otherwise;
+   shocks_from_data=False zero everywhere -- whatever parameters_from_data is; all other rows are the databox rows *)
+Theorem C17_slate_residual_rows : forall m (sm : seqmodel (RA m)) r pfd (raw : data (RA m)) c,
+  sm_ok m sm -> In r (sm_resids sm) ->
+  initial_slate (RA m) sm pfd true raw r c = (if m (raw r c) then 0 else raw r c)%R /\
+  initial_slate (RA m) sm pfd false raw r c = 0%R.
+Proof. exact slate_residual_rows. Qed.
+Print Assumptions C17_slate_residual_rows.
+
+Theorem C17_slate_other_rows : forall m (sm : seqmodel (RA m)) r pfd sfd (raw : data (RA m)) c,
+  alookup (RA m) (sm_params sm) r = None -> ~ In r (sm_resids sm) ->
+  initial_slate (RA m) sm pfd sfd raw r c = raw r c.
+Proof. exact slate_other_row. Qed.
+Print Assumptions C17_slate_other_rows.
+
+Theorem C17_flag_defaults : default_parameters_from_data = false /\ default_shocks_from_data = true.
+Proof. exact simulate_flag_defaults. Qed.
+Print Assumptions C17_flag_defaults.
+
+(* a simulated period's residual is the input residual (zero where the databox has none), under shocks_from_data=True *)
+Theorem C17_simulated_residual_is_input : forall m (sm : seqmodel (RA m)) pfd pl o cols (eqs : list (eqn (RA m)))
+    (raw : data (RA m)) r c,
+  sm_ok m sm -> In r (sm_resids sm) ->
+  (forall s, In s (steps_of (RA m) o cols eqs) -> ~ In (r, c) (writes m s)) ->
+  simulate_public (RA m) sm pfd true pl o cols eqs raw r c = (if m (raw r c) then 0 else raw r c)%R.
+Proof. exact simulated_residual_is_input. Qed.
+Print Assumptions C17_simulated_residual_is_input.
+
+(* 7. the public entry point with parameters_from_data=False, for EVERY input databox (also one holding entries named
+      like the parameters), either shocks_from_data, any plan: the result does not depend on those entries ... *)
+Theorem C17_parameter_data_ignored : forall m (sm : seqmodel (RA m)) sfd pl o cols (eqs : list (eqn (RA m)))
+    (raw raw' : data (RA m)),
+  sm_ok m sm -> (forall r c, alookup (RA m) (sm_params sm) r = None -> raw r c = raw' r c) ->
+  simulate_public (RA m) sm false sfd pl o cols eqs raw = simulate_public (RA m) sm false sfd pl o cols eqs raw'.
+Proof. exact simulate_public_ignores_parameter_data. Qed.
+Print Assumptions C17_parameter_data_ignored.
+
+(* ... and at the end each equation, WITH THE MODEL'S PARAMETER VALUES written in place of the parameter names,
+   holds together with its residual in every simulated period, under either execution order *)
+Theorem C17_public_dates_equations : forall m (sm : seqmodel (RA m)) sfd pl cols (eqs : list (eqn (RA m)))
+    (raw : data (RA m)),
+  sm_ok m sm -> params_not_written m sm eqs ->
+  increasing cols -> (forall e, In e eqs -> eqn_ok m e) ->
+  no_endogenous_leads m pl cols eqs -> sequentially_ordered m pl cols eqs ->
+  let dN := simulate_public (RA m) sm false sfd pl DatesEquations cols eqs raw in
+  (forall t e, In t cols -> In e eqs -> dom_ok m pl (t, e) dN) ->
+  forall t e, In t cols -> In e eqs -> holds m (subst_eqn (RA m) (sm_params sm) e) t dN.
+Proof. exact simulate_public_dates_equations. Qed.
+Print Assumptions C17_public_dates_equations.
+
+Theorem C17_public_equations_dates : forall m (sm : seqmodel (RA m)) sfd pl cols (eqs : list (eqn (RA m)))
+    (raw : data (RA m)),
+  sm_ok m sm -> params_not_written m sm eqs ->
+  increasing cols -> (forall e, In e eqs -> eqn_ok m e) ->
+  no_own_leads m pl cols eqs -> reads_only_earlier m pl cols eqs ->
+  let dN := simulate_public (RA m) sm false sfd pl EquationsDates cols eqs raw in
+  (forall t e, In t cols -> In e eqs -> dom_ok m pl (t, e) dN) ->
+  forall t e, In t cols -> In e eqs -> holds m (subst_eqn (RA m) (sm_params sm) e) t dN.
+Proof. exact simulate_public_equations_dates. Qed.
+Print Assumptions C17_public_equations_dates.
+
+(* parameters_from_data=True: the parameter rows used (and reported) are the databox values where present *)
+Theorem C17_public_parameter_rows_from_data : forall m (sm : seqmodel (RA m)) sfd pl o cols (eqs : list (eqn (RA m)))
+    (raw : data (RA m)) r (v : R) c,
+  sm_ok m sm -> params_not_written m sm eqs -> alookup (RA m) (sm_params sm) r = Some v ->
+  simulate_public (RA m) sm true sfd pl o cols eqs raw r c = if m (raw r c) then v else raw r c.
+Proof. exact simulate_public_parameter_rows_from_data. Qed.
+Print Assumptions C17_public_parameter_rows_from_data.
+
+(* non-vacuity: y = p*y[-1] with p = 1/2 in the model meets every hypothesis of both theorems; with a databox that says
+   p = 3/10 the simulation uses 1/2, and 3/10 under parameters_from_data=True *)
+Example C17_public_hypotheses_satisfiable : forall m,
+  sm_ok m (exs_sm m) /\ params_not_written m (exs_sm m) (exs_eqs m) /\ increasing exs_cols /\
+  (forall e, In e (exs_eqs m) -> eqn_ok m e) /\
+  no_endogenous_leads m exs_plan exs_cols (exs_eqs m) /\ sequentially_ordered m exs_plan exs_cols (exs_eqs m) /\
+  no_own_leads m exs_plan exs_cols (exs_eqs m) /\ reads_only_earlier m exs_plan exs_cols (exs_eqs m) /\
+  (forall (d : data (RA m)) t e, In t exs_cols -> In e (exs_eqs m) -> dom_ok m exs_plan (t, e) d).
+Proof. exact public_hypotheses_satisfiable. Qed.
+
+Example C17_public_example_values : forall m (raw : data (RA m)) sfd pl o c,
+  (forall c, raw 1%nat c = (3/10)%R) ->
+  simulate_public (RA m) (exs_sm m) false sfd pl o exs_cols (exs_eqs m) raw 1%nat c = (1/2)%R /\
+  (m (3/10)%R = false -> simulate_public (RA m) (exs_sm m) true sfd pl o exs_cols (exs_eqs m) raw 1%nat c = (3/10)%R).
+Proof. exact public_example_values. Qed.
